@@ -130,3 +130,17 @@ for _m, _p in (('mailfrom', {'address': 'Any', 'data_size': 'Opt[Int]', 'auth': 
                       'implies(not ("PIPELINING" in self.extensions), ' + OWN_REPLY + ' and ' + ' and '.join(FLUSHED) + ')'],
              checks=['ncalls("IO.send_command") == 1'],
              raises=CL_RAISES, modifies=CL_MOD)
+
+for _m, _p, _chk in (('send_data', {'*data': 'Args0'}, ['ncalls("DataSender.send") == 1']),
+                     ('send_empty_data', {}, ['ncalls("IO.send_command") == 1'])):
+    p = {'self': 'Client'}
+    p.update(_p)
+    contract('Client.' + _m, module=M, props=['C10'], params=p, returns='Reply',
+             requires=['CLIENT_ok(self)', 'in_timeout_scope()', 'self.extensions != None'],
+             ensures=['result != None', 'fresh(result)',
+                      'implies("PIPELINING" in self.extensions, len(self.reply_queue) == old(len(self.reply_queue)) + 1 '
+                      '        and same(self.reply_queue[len(self.reply_queue) - 1], result) '
+                      '        and self.io.next_reply == old(self.io.next_reply) '
+                      '        and forall(range(0, old(len(self.reply_queue))), lambda j: same(self.reply_queue[j], old(seq(self.reply_queue))[j])))',
+                      'implies(not ("PIPELINING" in self.extensions), ' + OWN_REPLY + ' and ' + ' and '.join(FLUSHED) + ')'],
+             checks=_chk, raises=CL_RAISES, modifies=CL_MOD)
